@@ -225,6 +225,7 @@ struct World {
     /// sessions that finished successfully at node n (its store may then list the peer)
     ok_completions: [u32; 2],
     real_accepts: u8,
+    neighbor_downs: u8,
 }
 
 /// How the next event is chosen.
@@ -465,6 +466,7 @@ async fn run_world(f: &mut Fixture, ns: NamespaceId, not_syncing: NamespaceId, m
         leaves: 0,
         ok_completions: [0, 0],
         real_accepts: 0,
+        neighbor_downs: 0,
     };
 
     // (I5, lifecycle) node 1 syncs `not_syncing`, node 0 only holds it: node 1's dial must be declined as not found, the
@@ -537,6 +539,9 @@ async fn run_world(f: &mut Fixture, ns: NamespaceId, not_syncing: NamespaceId, m
             Ready(usize, bool),
             /// a real accepting side (`BobState::run` on the node's own store actor) whose first message fails locally
             RealFailingAccept(usize),
+            /// gossip tells node n that the peer is no longer its neighbour (through the real inbox dispatch, hook H10): that
+            /// is news about the swarm, not about the sessions - nothing the coordination state says may change
+            NeighborDown(usize),
         }
         let mut enabled: Vec<Ev> = vec![];
         if !draining && w.dials < max_dials {
@@ -568,6 +573,9 @@ async fn run_world(f: &mut Fixture, ns: NamespaceId, not_syncing: NamespaceId, m
                 }
                 if w.syncing[n] && w.inflight.is_empty() && w.real_accepts < 2 {
                     enabled.push(Ev::RealFailingAccept(n));
+                }
+                if w.neighbor_downs < 3 {
+                    enabled.push(Ev::NeighborDown(n));
                 }
             }
         }
@@ -722,6 +730,25 @@ async fn run_world(f: &mut Fixture, ns: NamespaceId, not_syncing: NamespaceId, m
                     }
                     w.inflight.push(Item::Request { from: n, reason: SyncReason::DirectJoin, id });
                     o.class("re-join-dialled-the-remembered-peer");
+                }
+            }
+            Ev::NeighborDown(n) => {
+                let me = w.map[n];
+                let peer = f.ids[w.map[1 - n]];
+                w.neighbor_downs += 1;
+                let before = f.actors[me].verif_snapshot(&w.ns, &peer);
+                let dialled = f.actors[me].verif_actor_message(iroh_docs::verif::engine::ToLiveActor::NeighborDown { namespace: w.ns, peer }).await;
+                let after = f.actors[me].verif_snapshot(&w.ns, &peer);
+                o.class("neighbor-down-event");
+                if !w.inflight.is_empty() {
+                    o.class("neighbor-down-event-with-items-in-flight");
+                }
+                if dialled || format!("{before:?}") != format!("{after:?}") {
+                    o.fail(
+                        "C11/neighbor-down-changed-the-slot",
+                        format!("step {}: a neighbour-down notice at node {n} changed the state kept for the peer from {before:?} to {after:?} (dialled: {dialled}); {} items in flight", w.step, w.inflight.len()),
+                    );
+                    return Ok(());
                 }
             }
             Ev::Queue(n) => {
